@@ -471,6 +471,18 @@ func ruleC06_1(c *Ctx) {
 			}
 		}
 		if exp == nil {
+			weak := ""
+			for _, call := range allCalls(e.f) {
+				if w := c.weakExpiryParse(call.Common().StaticCallee()); w != "" {
+					weak = w
+					c.bad(R, fn, "expiry check", call.Pos(), calleeName(call)+" does not only parse the expiry date: "+w)
+				}
+			}
+			if weak != "" {
+				continue
+			}
+		}
+		if exp == nil {
 			// an expiry check that only runs deferred decides the result after everything else has happened
 			deferred := false
 			for _, b := range e.f.Blocks {
@@ -602,6 +614,37 @@ func (c *Ctx) expiryParse(f *ssa.Function, li int) (parse ssa.CallInstruction, i
 		}
 	}
 	return nil, nil
+}
+
+// weakExpiryParse: f hands its Layout parameter's Expires to a one-argument string helper that does call time.Parse on
+// it, but can also return a time obtained some other way. Returns a description of that other way, or "".
+func (c *Ctx) weakExpiryParse(f *ssa.Function) string {
+	if f == nil || f.Blocks == nil {
+		return ""
+	}
+	for li, prm := range f.Params {
+		if typeStr(prm.Type()) != "in_toto.Layout" {
+			continue
+		}
+		want := fmt.Sprintf("p%d.Expires", li)
+		for _, via := range allCalls(f) {
+			g := via.Common().StaticCallee()
+			if g == nil || g.Blocks == nil || g.Pkg != f.Pkg || len(g.Params) != 1 || typeStr(g.Params[0].Type()) != "string" || len(via.Common().Args) != 1 || org(via.Common().Args[0]) != want {
+				continue
+			}
+			for _, call := range callsIn(g, "time.Parse", "time.ParseInLocation") {
+				if resolve(call.Common().Args[1], call) != ssa.Value(g.Params[0]) {
+					continue
+				}
+				for _, r := range returnsOf(g) {
+					if pc, idx := producer(r.Results[0], r); (pc != call || idx != 0) && !isZeroTime(r.Results[0]) {
+						return "the helper " + fname(g) + " returns " + short(org(r.Results[0])) + " at " + c.pos(r.Pos()) + ", a time that does not come from time.Parse: a date built with time.Date is normalised (month 99, day 32 roll over) instead of being rejected, so an impossible date far in the past can pass as a future one"
+					}
+				}
+			}
+		}
+	}
+	return ""
 }
 
 func isZeroTime(v ssa.Value) bool {
